@@ -37,7 +37,9 @@ OPS = st.one_of(
                                          "key_o": ko, "key_s": ks,
                                          "same_o": so, "same_s": ss},
               st.sampled_from(["sample", "observation", "both", "detect"]),
-              ops.KEY, ops.KEY, st.booleans(), st.booleans()),
+              ops.KEY, ops.KEY,
+              st.sampled_from([True, True, False, "subset", "superset"]),
+              st.sampled_from([True, True, False, "subset", "superset"])),
     st.just({"kind": "transpose"}),
     st.just({"kind": "copy"}),
     st.builds(lambda a, m, s, ip, sub, ex: {"kind": "update_ids", "axis": a,
@@ -292,11 +294,20 @@ def _unchanged(t, before, what, result=None):
             result.add_metadata({ids[0]: {"k": "edited", "added": 1}},
                                 axis=axis)
         result.del_metadata(keys=["grp", "n"], axis="whole")
+        # ... nor does renaming the result's IDs in place (to names of the
+        # same width: ID arrays may be written in place)
+        for axis in ("observation", "sample"):
+            ids = [str(i) for i in result.ids(axis=axis)]
+            same = {i: (i[:-1] + ("~" if i[-1:] != "~" else "^"))
+                    for i in ids if i}
+            if len(same) == len(ids) and \
+                    len(set(same.values())) == len(ids):
+                result.update_ids(same, axis=axis, inplace=True)
         after = observe.snapshot(t)
         if after != before:
-            raise Violation("metadata-shared-with-result", "editing the "
-                            "metadata of the table returned by %s changed "
-                            "the receiver's: %r -> %r" %
+            raise Violation("result-shares-state-with-receiver", "editing "
+                            "the metadata / renaming the IDs of the table "
+                            "returned by %s changed the receiver: %r -> %r" %
                             (what, (before["obs_md"], before["samp_md"]),
                              (after["obs_md"], after["samp_md"])))
 
@@ -309,15 +320,23 @@ def _align(case, op, t, before, ref, rec):
     # the axes flagged "same", fresh IDs elsewhere
     po = ops.perm_from_key(len(ref.obs), op["key_o"])
     ps = ops.perm_from_key(len(ref.samp), op["key_s"])
-    o_ids = [ref.obs[i] for i in po] if op["same_o"] else \
-        ["zz_other_o%d" % i for i in range(len(ref.obs))]
-    s_ids = [ref.samp[i] for i in ps] if op["same_s"] else \
-        ["zz_other_s%d" % i for i in range(len(ref.samp))]
+    def other_ids(mine, perm, how, tag):
+        # the same IDs in another order / fresh IDs / a strict subset or a
+        # strict superset of mine (neither of which is "the same ID set")
+        if how is True:
+            return [mine[i] for i in perm]
+        if how == "subset" and len(mine) >= 2:
+            return [mine[i] for i in perm][:-1]
+        if how == "superset":
+            return [mine[i] for i in perm] + ["zz_extra_%s" % tag]
+        return ["zz_other_%s%d" % (tag, i) for i in range(len(mine))]
+    o_ids = other_ids(ref.obs, po, op["same_o"], "o")
+    s_ids = other_ids(ref.samp, ps, op["same_s"], "s")
     rows = [[float((i * 7 + j * 3) % 5) for j in range(len(s_ids))]
             for i in range(len(o_ids))]
     other = Table(gen.encode(rows, "dense")[0], o_ids, s_ids)
     other_before = observe.snapshot(other)
-    can_o, can_s = op["same_o"], op["same_s"]
+    can_o, can_s = op["same_o"] is True, op["same_s"] is True
     ok = {"sample": can_s, "observation": can_o, "both": can_o and can_s,
           "detect": can_o or can_s}[axis]
     rec.cls("align:%s:%s" % (axis, "ok" if ok else "refused"))
